@@ -241,7 +241,7 @@ def parse_float_lists(out):
     return res
 
 
-def coq_eval_float_lists(preamble, exprs, tag, chunk=300, timeout=600, jobs=12):
+def coq_eval_float_lists(preamble, exprs, tag, chunk=300, timeout=600, jobs=12, float_scope=True):
     """evaluate Coq terms of type `list float` with vm_compute; returns list of list of float.
     `preamble` = Require/Import lines.  Raises RuntimeError when coqc fails (the model does not
     build: that is a broken tie, handled by the caller)."""
@@ -250,8 +250,8 @@ def coq_eval_float_lists(preamble, exprs, tag, chunk=300, timeout=600, jobs=12):
     for k in range(0, len(exprs), chunk):
         fn = os.path.join(CASES, "cases_%s_%d.v" % (tag, k // chunk))
         with open(fn, "w") as f:
-            f.write(preamble + "\nFrom Coq Require Import PrimFloat List.\nImport ListNotations.\n"
-                    "Local Open Scope float_scope.\n")
+            f.write("From Coq Require Import PrimFloat List.\nImport ListNotations.\n" + preamble + "\n"
+                    + ("Local Open Scope float_scope.\n" if float_scope else ""))
             for e in exprs[k:k + chunk]:
                 f.write("Eval vm_compute in (%s : list float).\n" % e)
         files.append(fn)
